@@ -26,7 +26,8 @@ RULE = ("job = seed -> (client settings, server settings) from the restriction "
         "predicate held (connect clause exercised)"
         " Session cache / ticket keys / a shared external PSK are drawn next to the lattice, and a second connection between the same settings offers the first one's session: it must connect as well."
         ' Out-of-domain values must make validate() raise; SRP flavour with the client key-size window on / next to the size of the server group.'
-        ' PSK options include several identities with explicit and default hashes in either order; SNI on/off.')
+        ' PSK options include several identities with explicit and default hashes in either order; SNI on/off.'
+        ' PSK key-exchange mode policies on either side (a PSK that cannot be used under them must simply not be used).')
 LEVEL_TEXT = ("Seeded exploration over settings pairs.  The connect clause "
               "is judged by a deliberately conservative predicate (says "
               "'don't know' whenever the documented semantics leave room), "
@@ -199,6 +200,15 @@ def run(job, streams=None):
             s["pskConfigs"] = [list(scen.PSK_HEX), list(other)]
     if ch.draw(3, "opt.tick") == 1:
         s["ticketKeys"] = ["77" * 32]
+    # PSK key exchange mode policies: a PSK / ticket that cannot be used
+    # under them must simply not be used
+    pm = ch.draw(6, "opt.pskmodes")
+    if pm in (1, 2):
+        c["psk_modes"] = [["psk_ke"], ["psk_dhe_ke"]][pm - 1]
+    if pm in (2, 3):
+        s["psk_modes"] = ["psk_ke"]
+    elif pm in (1, 4):
+        s["psk_modes"] = ["psk_dhe_ke"]
     second = ch.draw(3, "opt.second") != 2
     use_cache = ch.draw(2, "opt.cache") == 1
     invalid = None
